@@ -604,13 +604,15 @@ Proof.
       assert (Ht : mem_name (wv l) (filter_map label_of ns) = true).
       { apply label_names_defines. exists n. split; assumption. }
       congruence.
-    + apply dedup_in in Hl1. apply in_app_or in Hl1. destruct Hl1 as [Hl1|Hl1].
-      * apply dedup_in in Hl1. apply in_app_or in Hl1. destruct Hl1 as [Hl1|Hl1]; [|right; exact Hl1].
-        apply filter_map_in in Hl1. destruct Hl1 as [n [H1 H2]]. left. exists n. split; [exact H1|left; exact H2].
-      * apply in_app_or in Hl1. destruct Hl1 as [Hl1|Hl1]; apply dedup_in, filter_map_in in Hl1;
-          destruct Hl1 as [n [H1 H2]]; left; exists n; (split; [exact H1|]).
-        -- right; left; exact H2.
-        -- right; right; exact H2.
+    + assert (U : forall a b x, In x (union_names a b) -> In x a \/ In x b).
+      { intros a b x Hx. unfold union_names in Hx.
+        destruct (Nat.leb (length b) (length a)); apply dedup_in, in_app_or in Hx; tauto. }
+      apply U in Hl1. destruct Hl1 as [Hl1|Hl1].
+      * apply U in Hl1. destruct Hl1 as [Hl1|Hl1].
+        -- apply dedup_in in Hl1. apply in_app_or in Hl1. destruct Hl1 as [Hl1|Hl1]; [|right; exact Hl1].
+           apply filter_map_in in Hl1. destruct Hl1 as [n [H1 H2]]. left. exists n. split; [exact H1|left; exact H2].
+        -- apply dedup_in, filter_map_in in Hl1. destruct Hl1 as [n [H1 H2]]. left. exists n. split; [exact H1|right; left; exact H2].
+      * apply dedup_in, filter_map_in in Hl1. destruct Hl1 as [n [H1 H2]]. left. exists n. split; [exact H1|right; right; exact H2].
 Qed.
 
 Definition maps_empty (c : cnode) : Prop := rin c = [] /\ rout c = [] /\ min c = [] /\ mout c = [].
